@@ -1,15 +1,18 @@
 (* C16 — property theorems only.  Each is closed by [exact] of a lemma from Proofs.v and
    followed by Print Assumptions.  The notions used in the statements ([flows_ok], [typed],
    [exact], [row_ok], [before], [path], [cyclic], [duplicate_source], [missing_source],
-   [missing_handler], [handler_raised], [output_rejection], [has_handler]) are defined, with
-   comments, in Proofs.v; [execute], [build], [connect], [required_caps] are the model of
+   [missing_handler], [handler_raised], [output_rejection], [has_handler], [ext_feeds],
+   [handlers_after], [execution_ok]) are defined, with comments, in Proofs.v; [execute], [build], [connect], [required_caps] are the model of
    DiagramExecutor.execute, of a diagram assembled through WiringDiagram.connect, of connect
    and of required_capabilities (Model.v).
 
    All statements are for every list of modules, every list of attempted connections
    (the diagram holds the accepted ones: [build mods attempts]), every handler oracle
    (raising, wrong key sets, raw / labelled / mislabelled values), every assignment of
-   external inputs and both values of enforce_static_checks. *)
+   external inputs and both values of enforce_static_checks.  Raw handler results and raw
+   external inputs include values that claim a label of their own without being a TypedValue
+   ([RawClaim]: an ApprovalToken's integrity field, look-alike objects, dicts): the statements
+   hold for all of them, they take the port's label like any other raw value. *)
 From Coq Require Import ZArith List Bool Permutation.
 From Verif Require Import C16.Model C16.Proofs.
 Import ListNotations.
@@ -87,6 +90,51 @@ Theorem c16_unschedulable_raises :
     NoDup (map fst (snd res)).
 Proof. exact unschedulable_raises_proof. Qed.
 Print Assumptions c16_unschedulable_raises.
+
+(* In every execution -- also one that raises later -- handlers are invoked in topological
+   order: when the handler of a module is invoked, the handler of the source module of every
+   wire into that module has been invoked (and returned) before, the only exception being an
+   input port that is in addition given a value from outside in this execution (two sources:
+   the executor rejects the clash when the wire delivers, see ex_cycle_external). *)
+Theorem c16_handlers_invoked_in_topological_order :
+  forall mods attempts handlers enforce ext out calls,
+    execute mods (build mods attempts) handlers enforce ext = (out, calls) ->
+    forall pre c post, calls = pre ++ c :: post ->
+    forall w, In w (build mods attempts) -> w_dm w = fst c ->
+      In (w_sm w) (map fst pre) \/ ext_feeds ext (w_dm w) (w_dp w).
+Proof. exact calls_topological_proof. Qed.
+Print Assumptions c16_handlers_invoked_in_topological_order.
+
+(* Duplicate sources, second kind: an input port that has a wire and is in addition given a value
+   from outside never yields a report: execute raises a WiringError (or a handler's own exception
+   propagates first). *)
+Theorem c16_wired_port_fed_externally_raises :
+  forall mods attempts handlers enforce ext w,
+    In w (build mods attempts) -> ext_feeds ext (w_dm w) (w_dp w) ->
+    exists e, fst (execute mods (build mods attempts) handlers enforce ext) = Raised e /\
+              (wiring_error e = true \/
+               (e = EHandlerRaised /\
+                handler_raised handlers (snd (execute mods (build mods attempts) handlers enforce ext)))).
+Proof. exact two_sources_no_report. Qed.
+Print Assumptions c16_wired_port_fed_externally_raises.
+
+(* Executors over time: for every sequence of register_module and execute calls (any handlers,
+   any external inputs and flags, executions that raise included) and of new executors built over
+   the same accepted diagram ([XNew]), every execution in it is the execution of a fresh executor
+   holding exactly the handlers registered on the current executor before it -- nothing of an
+   earlier execution, failed or not, and nothing of another executor is read -- and
+   therefore satisfies everything the property says about one execution ([execution_ok]: it
+   terminates; typed complete input rows; no handler twice; topological invocation order;
+   mislabelled outputs rejected; unschedulable diagrams (also: a wired port fed externally) raise; a report has every
+   module once in topological order with exactly labelled outputs). *)
+Theorem c16_every_execution_of_an_executor :
+  forall mods attempts hs0 ops hs ext enforce res,
+    In (EvExec hs ext enforce res) (run_ops mods (build mods attempts) hs0 ops) ->
+    (exists pre post, ops = pre ++ XExec ext enforce :: post /\ hs = handlers_after mods hs0 pre) /\
+    res = execute mods (build mods attempts) hs enforce ext /\
+    execution_ok mods (build mods attempts) hs ext res.
+Proof. exact every_execution_of_an_executor_proof. Qed.
+Print Assumptions c16_every_execution_of_an_executor.
 
 (* Required capabilities are the union over modules (as a duplicate-free collection). *)
 Theorem c16_capabilities_union :
